@@ -1652,7 +1652,8 @@ func c11RuleL(w *World, r *Report, subjects []*ssa.Function, derefs map[*ssa.Fun
 			nilSucc := b.Succs[1-nn]
 			if blockReaches(nilSucc, func(i ssa.Instruction) bool {
 				c, ok := i.(ssa.CallInstruction)
-				return ok && c.Common().StaticCallee() != nil && c.Common().StaticCallee().Name() == "AddSyntaxError"
+				_ = c
+				return ok && isAddSyntaxError(i)
 			}) {
 				// coverage of inner objects: the validating function must also look at inline packets
 				covers := false
